@@ -4,9 +4,11 @@ mod c01;
 mod c02;
 mod c03;
 mod c05;
+mod c06;
 mod c07;
 mod c09;
 mod c10;
+mod c14;
 mod c15;
 mod c16;
 mod c17;
@@ -31,10 +33,12 @@ fn main() {
             "C02" => c02::run(&case),
             "C03" | "C04" => c03::run(&case),
             "C05" => c05::run(&case),
+            "C06" => c06::run(&case),
             "C07" | "C18" => c07::run(&case),
             "C08" => c07::run08(&case),
             "C09" => c09::run(&case),
             "C10" => c10::run(&case),
+            "C14" => c14::run(&case),
             "C15" => c15::run(&case),
             "C16" => c16::run(&case),
             "C17" => c17::run(&case),
